@@ -11,6 +11,7 @@ from props.base import Context  # noqa: F401
 
 PID = 'C19'
 TIE_MODULES = ['DiffxVerif.Tie.Dom']
+NEEDS = ['dom', 'options']
 ASSUMPTIONS = [
     'attribute names assigned are the typed attributes (own and forwarded) plus unknown names; plain slot attributes of the classes (options, changes, files, ...) are not typed attributes and are excluded',
     'D16 classifier: the two trees differ only in leaves that are Python-equal but of different type (bool vs int)',
